@@ -412,10 +412,6 @@ impl SyncResponder {
         // descend through the graph.
         have_locations.sort_by_key(|loc| core::cmp::Reverse(loc.max_cut));
 
-        // Index into have_locations: everything before this has max_cut above
-        // the current segment's longest_max_cut and can be skipped.
-        let mut have_cursor: usize = 0;
-
         // heads queue: segments to process, popped by highest max_cut.
         let heads = buffers.primary.get();
 
@@ -474,23 +470,16 @@ impl SyncResponder {
                 continue;
             }
 
-            // Advance have_cursor past locations with max_cut above this
-            // segment's longest_max_cut — they've already been passed.
-            let longest = segment.longest_max_cut()?;
-            while have_locations
-                .get(have_cursor)
-                .is_some_and(|h| h.max_cut > longest)
-            {
-                have_cursor = have_cursor
-                    .checked_add(1)
-                    .assume("index must not overflow")?;
-            }
-
             // Look for a have_location in this segment: same SegmentIndex
-            // with max_cut within shortest_max_cut..=longest_max_cut.
+            // with max_cut within shortest_max_cut..=longest_max_cut. A
+            // segment can be entered more than once (from its head and
+            // through a prior that points into its middle), and a later,
+            // lower entry still has to see a have_location near the top of
+            // the segment, so every have_location is scanned.
+            let longest = segment.longest_max_cut()?;
             let shortest = segment.shortest_max_cut();
             let mut best_have: Option<(usize, Location)> = None;
-            for scan in have_cursor..have_locations.len() {
+            for scan in 0..have_locations.len() {
                 let hloc = have_locations[scan];
                 if hloc.max_cut < shortest {
                     break; // rest are even lower, can't be in this segment
@@ -544,8 +533,15 @@ impl SyncResponder {
         // are discarded — the peer already has them.
         pending.drain_all(|loc| push_bounded(&mut collected, loc));
 
-        // Sort to ensure causal order (parents before children).
+        // Sort to ensure causal order (parents before children). A segment
+        // entered twice may have been collected twice from the same point.
         collected.sort();
+        let mut previous: Option<Location> = None;
+        collected.retain(|location| {
+            let keep = previous != Some(*location);
+            previous = Some(*location);
+            keep
+        });
 
         Ok(collected)
     }
